@@ -13,6 +13,8 @@ d = "benign"
 if "--dir" in args:
     i = args.index("--dir"); d = args[i+1]; args = args[:i] + args[i+2:]
 props = subprocess.run([BIN, "list"], capture_output=True, text=True).stdout.split()
+if os.environ.get("PROPS"):
+    props = os.environ["PROPS"].split()  # restrict the cross run to these properties
 patches = []
 if args and args[0] == "--stored":
     pat = args[1] if len(args) > 1 else "*"
